@@ -2371,7 +2371,8 @@ def peval(v, assume: dict, as_cond: bool = False):
     if k == "comp":
         gens = tuple((tg, peval(it, assume), tuple(peval(c, assume, True) for c in ifs)) for tg, it, ifs in v[3])
         return simp(("comp", v[1], peval(v[2], assume, as_cond), gens))
-    return simp(tuple(peval(x, assume, as_cond) if isinstance(x, tuple) else x for x in v))
+    # (the operands of a comparison / call are VALUES, not conditions: `abs(b) == 0.5` under the assumption "b is truthy" still reads b)
+    return simp(tuple(peval(x, assume, False) if isinstance(x, tuple) else x for x in v))
 
 
 def expand_bvals(flow, v):
